@@ -164,3 +164,11 @@ def rule_awaits(ctx):
 
 
 RULES.append(("C03.j", "await inventory: only futures whose completion rule is covered are polled on the delivery path", rule_awaits))
+
+
+def rule_mustpass(ctx):
+    from . import mustpass
+    mustpass.check(ctx, ['send-completes-after-wait', 'send-ok-notifies-receiver', 'recv-runs-handler', 'recv-notifies-sender', 'output-send-broadcasts', 'requestor-send-broadcasts', 'process-event-runs', 'process-query-runs'])
+
+
+RULES.append(("C03.k", "must-pass-through: no path around the effects this property rests on (added fast paths / early returns)", rule_mustpass))
